@@ -5,7 +5,7 @@ nothing behind; `EncryptPayload` / `DecryptDataRowRecord` keep the resource inva
 faults, for the `never` and `simple` key caches.
 -/
 set_option linter.unusedVariables false
-namespace AsherahVerif.Env
+namespace AsherahVerif.Env.Res
 
 theorem Spec.anyErr {α : Type} {P : World → Prop} {x : M α} {Q : α → World → Prop} {E : World → Prop}
     (h : Spec P x Q (fun _ => False)) : Spec P x Q E := h.weaken (fun _ h => h) (fun _ _ h => h) (fun _ h => h.elim)
@@ -362,4 +362,4 @@ theorem decryptDataRowRecord_spec (x : Ctx) (d : Drr) (hds : T.dead x.skCache = 
         exact Spec.finallyDo (decryptRow_spec T (ik :: H) ik _ _ List.mem_cons_self)
           (fun a => keyRelease_ri T H .none ik) (keyRelease_ri T H .none ik)
 end
-end AsherahVerif.Env
+end AsherahVerif.Env.Res
